@@ -29,12 +29,25 @@ theorem claimString_checked (site : String) (v : Option J) : ∀ s, Dpop.claimSt
   | none => simp
   | some j => cases j <;> simp
 
+theorem parseHeader_no_panic (i : Dpop.ParseIn) : ∀ s, Dpop.parseHeader i ≠ .panic s := by
+  intro s
+  unfold Dpop.parseHeader
+  repeat' split
+  all_goals first | (simp; done) | (simp_all (maxSteps := 2000000))
+
+theorem parseClaims_no_panic (c : Dpop.Cfg) (i : Dpop.ParseIn) : ∀ s, Dpop.parseClaims c i ≠ .panic s := by
+  intro s
+  unfold Dpop.parseClaims
+  repeat' split
+  all_goals first | (exact absurd ‹_› (claimCheck_no_panic _ _ _ _)) | (simp; done)
+
 theorem parse_no_panic (c : Dpop.Cfg) (i : Dpop.ParseIn) : ∀ s, Dpop.parse c i ≠ .panic s := by
   intro s
   unfold Dpop.parse
-  repeat' split
-  all_goals first | (intro h; cases h; done) | skip
-  all_goals first | (exact absurd ‹_› (claimCheck_no_panic _ _ _ _)) | simp_all
+  split
+  · simp
+  · exact absurd ‹_› (parseHeader_no_panic i _)
+  · exact parseClaims_no_panic c i s
 
 /-- Parse only lets string-valued htu/htm through (repaired source) -/
 theorem claimCheck_ok_str (n : String) (v : Option J) (h : Dpop.claimCheck Dpop.Cfg.fixed n v = .ok ()) :
